@@ -308,3 +308,48 @@ def canary_key_error_is_not_a_lookup_error(a):
     except LookupError:
         return False
     return True
+
+
+# --- string and dict operations ---------------------------------------------------------------------------------------------
+@lemma(dict(s=Str(), t=Str()), prop=["ENGINE"])
+def prefixes_suffixes_lengths_and_substrings(s, t):
+    u = s + "P" + t
+    return u.startswith(s) and u.endswith(t) and len(u) == len(s) + 1 + len(t) and ("P" in u) \
+        and (s + t).endswith(t) and ("" in s) and s.startswith("")
+
+
+@lemma(dict(s=Str()), prop=["ENGINE"], canary=True)
+def canary_every_string_ends_with_p(s):
+    return s.endswith("P")
+
+
+@lemma(dict(a=Int(-3, 3), flag=Bool()), prop=["ENGINE"])
+def dict_get_membership_and_overwriting(a, flag):
+    d = {"x": a}
+    if flag:
+        d["y"] = a + 1
+    d["x"] = a + 2
+    return d.get("x") == a + 2 and d.get("z") is None and d.get("z", 7) == 7 and ("y" in d) == flag \
+        and len(d) == (2 if flag else 1)
+
+
+@lemma(dict(a=Int(-3, 3), b=Int(-3, 3)), prop=["ENGINE"])
+def enumerate_and_range_agree(a, b):
+    xs = [a, b, a]
+    by_enum = [i for i, x in enumerate(xs) if x == a]
+    by_range = [i for i in range(len(xs)) if xs[i] == a]
+    return by_enum == by_range and 0 in by_enum and 2 in by_enum and (1 in by_enum) == (a == b)
+
+
+@lemma(dict(a=Int(-3, 3), b=Int(-3, 3)), prop=["ENGINE"])
+def boolean_operators_return_operands(a, b):
+    x = a or b
+    y = a and b
+    return (x == (a if a != 0 else b)) and (y == (b if a != 0 else a))
+
+
+@lemma(dict(flag=Bool(), s=Str()), prop=["ENGINE"])
+def is_versus_equality_on_none_and_booleans(flag, s):
+    v = None if flag else s
+    w = True if flag else None
+    return (v is None) == flag and (w is True) == flag and (w is None) == (not flag) and (v == s or flag)
